@@ -20,7 +20,8 @@ home = os.getcwd()
 for h in job["history"]:
     if h.get("cwd"):
         os.chdir(h["cwd"])     # an earlier compile of ANOTHER project from its own directory (same relative file names)
-    comp(h["entry"], h["out"], h["save"], True, h["includes"])
+    # "share": the caller's script hands ONE include-list object to every compile (its entries follow those of the earlier project)
+    comp(h["entry"], h["out"], h["save"], True, job["includes"] if h.get("share") else h["includes"])
     os.chdir(home)
 before = DNA_classes.AnonymousSequence.num
 ok = comp(job["entry"], job["out"], job["save"], job["fmt"] == "pil", job["includes"], job.get("fixed"))
